@@ -396,6 +396,11 @@ func RandCalls(r *rand.Rand, c *Case, n int, vetoP float64, maxVeto int) []Call 
 		// one or two more mutations (queued behind the running transition)
 		if c.On && NestP > 0 && r.Float64() < NestP && len(c.Binds) > 0 && len(c.Binds[0].Fin) > 0 {
 			k := 1 + r.Intn(2)
+			if r.Intn(5) == 0 {
+				// a burst: enough handler-issued mutations to reach the queue limit
+				// of the driver's machines (seqdrv.QueueLimit = 4) and go beyond it
+				k = 4 + r.Intn(4)
+			}
 			for j := 0; j < k; j++ {
 				h := c.Binds[0].Fin[r.Intn(len(c.Binds[0].Fin))]
 				ty := []string{"add", "add", "remove", "set"}[r.Intn(4)]
